@@ -368,6 +368,10 @@ impl AvpHeader {
     }
 }
 
+/// Maximum number of Grouped AVPs that may be nested inside one another when decoding.
+/// Decoding is recursive; without a bound a small hostile frame overflows the stack.
+pub const MAX_GROUPED_NESTING: usize = 32;
+
 impl Avp {
     pub fn new(
         code: u32,
@@ -436,6 +440,15 @@ impl Avp {
     }
 
     pub fn decode_from<R: Read + Seek>(reader: &mut R, dict: Arc<Dictionary>) -> Result<Avp> {
+        Avp::decode_nested(reader, dict, 0)
+    }
+
+    /// Decodes an AVP found `depth` Grouped AVPs below the top level of a message.
+    pub(crate) fn decode_nested<R: Read + Seek>(
+        reader: &mut R,
+        dict: Arc<Dictionary>,
+        depth: usize,
+    ) -> Result<Avp> {
         let header = AvpHeader::decode_from(reader)?;
 
         let header_length = if header.flags.vendor { 12 } else { 8 };
@@ -473,11 +486,19 @@ impl Avp {
                 AvpValue::DiameterURI(DiameterURI::decode_from(reader, value_length as usize)?)
             }
             AvpType::Time => AvpValue::Time(Time::decode_from(reader)?),
-            AvpType::Grouped => AvpValue::Grouped(Grouped::decode_from(
-                reader,
-                value_length as usize,
-                Arc::clone(&dict),
-            )?),
+            AvpType::Grouped => {
+                if depth >= MAX_GROUPED_NESTING {
+                    return Err(Error::DecodeError(
+                        "grouped avps nested too deeply".into(),
+                    ));
+                }
+                AvpValue::Grouped(Grouped::decode_nested(
+                    reader,
+                    value_length as usize,
+                    Arc::clone(&dict),
+                    depth + 1,
+                )?)
+            }
             AvpType::Unknown => return Err(Error::UnknownAvpCode(header.code)),
         };
 
